@@ -194,7 +194,11 @@ impl Compactor {
             }
         }
 
+        #[cfg(feature = "verif")]
+        crate::verif::sched::point(format!("compactor.before_commit:{}", table.table_id())).await;
         self.storage.version.commit_changes(changes).await?;
+        #[cfg(feature = "verif")]
+        crate::verif::sched::point(format!("compactor.committed:{}", table.table_id())).await;
 
         match rowset_id {
             Some(rowset_id) => {
@@ -218,8 +222,16 @@ impl Compactor {
     pub async fn run(mut self) -> StorageResult<()> {
         loop {
             {
+                #[cfg(feature = "verif")]
+                crate::verif::sched::point("compactor.pass_begin".into()).await;
                 let tables = self.storage.tables.read().clone();
                 for (_, table) in tables {
+                    #[cfg(feature = "verif")]
+                    crate::verif::sched::point(format!(
+                        "compactor.before_lock:{}",
+                        table.table_id()
+                    ))
+                    .await;
                     if let Some(_guard) = self
                         .storage
                         .txn_mgr
@@ -228,7 +240,19 @@ impl Compactor {
                         // Pin the snapshot *after* the table is locked: a deletion committed
                         // while an earlier table of this pass was being compacted must be seen,
                         // otherwise the rows it deleted would be written to the new RowSet.
+                        #[cfg(feature = "verif")]
+                        crate::verif::sched::point(format!(
+                            "compactor.locked:{}",
+                            table.table_id()
+                        ))
+                        .await;
                         let pin_version = self.storage.version.pin();
+                        #[cfg(feature = "verif")]
+                        crate::verif::sched::point(format!(
+                            "compactor.pinned:{}",
+                            table.table_id()
+                        ))
+                        .await;
                         if let Err(err) = self.compact_table(&pin_version.snapshot, table).await {
                             warn!("failed to compact: {:?}", err);
                         }
